@@ -303,7 +303,9 @@ func ParseTransactionError(v any) (map[string]any, error) {
 					},
 				}, nil
 			default:
-				return nil, fmt.Errorf("unknown instruction error type: %d", instructionErrorType)
+				// every other (known, see the name lookup above) instruction error has no payload:
+				// it is rendered below. Returning an error here made that rendering unreachable
+				// and every such failed transaction look successful ("err": null).
 			}
 
 			return map[string]any{
